@@ -105,6 +105,100 @@ def make_case(rng):
     return fty, pyk, form, value, expect, source
 
 
+# --------------------------------------------------------------------------- leaf types in positions ("converted by the field's type")
+
+LEAF_BASE = 2000000
+
+# leaf kind -> (spellings as they stand in an environment, the documented result).  bytes / bytearray: the Environment
+# loader encodes the string (EnvLoader.load_to_bytes / load_to_byte_array, utf-8) - a string is all an environment can
+# hold, so "converted by the field's type" can only mean that for them.
+TEXT = ['abc', 's3cr3t-key', 'pepper', 'Zm9v', 'a b', 'x', 'ü-ß', 'k:v/w', 'A_B', 'p@ss!']
+LEAVES = {
+    'str': (TEXT, lambda s: s),
+    'bytes': (TEXT, lambda s: s.encode('utf-8')),
+    'bytearray': (TEXT, lambda s: bytearray(s.encode('utf-8'))),
+    'int': (['0', '7', '-12', '5432'], int),
+    'float': (['1.5', '-0.25', '3.0'], float),
+    'bool': (['true', 'false', 'TRUE', '1', '0'], lambda s: s.upper() in ('TRUE', '1')),
+}
+
+
+def leaf_contexts(eng, kind):
+    """the positions of c04_engines.ENV_CONTEXTS a leaf of this kind can stand in (key positions and the tuple parsers - with
+    their own known finding, C04 - left out; an unhashable leaf cannot be a set member)"""
+    out = []
+    for ck, (_, _, _, flags) in eng.ENV_CONTEXTS.items():
+        if 'key' in flags or 'tuple' in flags or ck.startswith('namedtuple'):
+            continue
+        if ck == 'set' and kind == 'bytearray':
+            continue
+        out.append(ck)
+    return out
+
+
+def make_leaf_case(eng, rng):
+    kind = rng.choice(['bytes', 'bytes', 'bytearray', 'bytearray', 'str', 'int', 'float', 'bool'])
+    ck = rng.choice(leaf_contexts(eng, kind))
+    mk_ty, mk_val, unwrap, flags = eng.ENV_CONTEXTS[ck]
+    vals, conv = LEAVES[kind]
+    v = rng.choice(vals)
+    return kind, ck, mk_ty(T(kind)), mk_val(v), unwrap, conv(v), rng.choice(SOURCES)
+
+
+def same_leaf(got, exp):
+    return type(got) is type(exp) and got == exp
+
+
+def run_leaves(ctx, eng):
+    """a field of a leaf type - bare, Optional, in the comma / k=v shorthand of a collection, inside a JSON form, inside a
+    nested dataclass / TypedDict - fed from each of the four sources: every leaf of the result is the documented conversion of
+    the string that was written for it, whatever the position and the source"""
+    n = ctx.quick(220, 3000)
+    reqs, pend = [], []
+    for j in range(n):
+        i = LEAF_BASE + j
+        if ctx.done(i):
+            break
+        if ctx.only is not None and ctx.only != i:
+            continue
+        rng = random.Random(f'C18:{ctx.seed}:leaf:{j}')
+        kind, ck, fty, value, unwrap, exp, source = make_leaf_case(eng, rng)
+        if not ctx.begin_case(i):
+            continue
+        case = {'conversion': True, 'leaf': kind, 'context': ck, 'ty': fty, 'source': source, 'value': value}
+        tmp = tempfile.mkdtemp(prefix='dwv_c18l_')
+        eb = eng.EnvBuilt(fty)
+        try:
+            ctx.seen('conversion:leaf', case)
+            before = dict(os.environ)
+            out = load_from(eb, source, value, tmp)
+            if dict(os.environ) != before:
+                ctx.fail('os-untouched', case, f'os.environ differs after the instantiation (value from {source})')
+            src = dict(src=eb.source)
+            if out[0] == 'err':
+                ctx.fail('conversion:leaf', case, f'{value!r} (from {source}) for a {kind} leaf in position {ck}: the documented conversion gives {exp!r} '
+                         f'at every leaf, but the instantiation raised {type(out[1]).__name__}: {str(out[1])[:240]}', detail=src)
+            else:
+                try:
+                    leaves = unwrap(out[1])
+                except Exception as e:
+                    leaves = None
+                    ctx.fail('conversion:leaf', case, f'{value!r} (from {source}) in position {ck} loaded as {out[1]!r}: not the shape of the field '
+                             f'type ({type(e).__name__})', detail=src)
+                if leaves is not None and (not leaves or not all(same_leaf(g, exp) for g in leaves)):
+                    ctx.fail('conversion:leaf', case, f'{value!r} (from {source}) for a {kind} leaf in position {ck} loaded as {out[1]!r}; the documented '
+                             f'conversion gives {exp!r} at every leaf', detail=src)
+            reqs.append({'op': 'c04', 'fn': 'load', 'ty': model.enc_ty(fty), 'val': value, 'std': eng.env_std(value)})
+            pend.append((case, out, eb.built))
+        finally:
+            eb.close()
+            shutil.rmtree(tmp, ignore_errors=True)
+    if ctx.model_available and reqs:
+        outs = ctx.driver.run(reqs)
+        for (case, out, built), o in zip(pend, outs):
+            eng.compare_env(ctx, 'conversion:leaf', case, out, o, built)
+
+
 def load_from(eb, source, value, tmp):
     """instantiate the one-field EnvWizard class of `eb` with `value` coming from `source`; os.environ restored"""
     from harness.props.c01 import load_outcome
@@ -175,7 +269,8 @@ def run(ctx, eng):
         finally:
             eb.close()
             shutil.rmtree(tmp, ignore_errors=True)
-    if ctx.model_available:
+    if ctx.model_available and reqs:
         outs = ctx.driver.run(reqs)
         for (case, out, built), o in zip(pend, outs):
             eng.compare_env(ctx, 'conversion', case, out, o, built)
+    run_leaves(ctx, eng)
